@@ -202,9 +202,11 @@ def run_family(ctx, prefix="C07"):
     # vacuity guard: every predicate must have been evaluated with its antecedent true (a defect that
     # stops the pipeline early is reported as the violation it is, not as vacuity)
     idle = [p for p in PREDICATES if ex.get(p, 0) == 0]
-    if idle and not ctx.violations:
+    known = {k["signature"] for k in core.load_known() if k.get("property") == ctx.pid and k.get("status") == "open"}
+    fresh = [v for v in ctx.violations if v["signature"] not in known]
+    if idle and not fresh:
         raise core.Infra("predicates never exercised: %s" % idle)
-    if ctx.tier == "thorough" and not ctx.violations:
+    if ctx.tier == "thorough" and not fresh:
         ctx.extra["selftest_corruptions_rejected"] = selftest(ctx, raw)
     ctx.assumptions += [
         "the independent record parser/encoder (harness/objstl/stl_rec.go) implements the binary STL layout",
